@@ -217,12 +217,6 @@ pub fn check_store(rep: &mut Report, script: &[String], rng: &mut Rng) {
         if cs.is_empty() { continue; }
         rep.count(&format!("query:{}:{}-constraints", rtype, cs.len()));
         let kw = |c: &str| c.split('"').next().unwrap_or("?").trim().replace(' ', "-");
-        // ---- single constraints: no duplicates
-        for (c, r) in &cs {
-            if as_set(r).len() != r.len() && rtype != "TEXT" && rtype != "DATA" {
-                rep.fail("oracle", &format!("C08/duplicates/{}/{}", rtype, kw(c)), ctx(&format!("SELECT {} ?x WHERE {};", rtype, c)), "each item once", &format!("{:?}", r));
-            }
-        }
         // ---- each constraint as primary (index-driven) vs. as filter behind a primary that admits every item
         let universal: Option<String> = match rtype {
             "ANNOTATION" if !v.anns.is_empty() && store.annotations().all(|a| a.id().is_some()) => Some(format!("[ {} ]", v.anns.iter().map(|a| format!("ID \"{}\"", a)).collect::<Vec<_>>().join(" OR "))),
@@ -320,6 +314,8 @@ pub fn run(opts: &Opts) -> Report {
         let mut script: Vec<String> = if i % 3 == 2 { crate::fam::store::scenario(&mut g) } else { vec![] };
         let nops = 8 + g.rng.below(24);
         script.extend((0..nops).map(|_| g.op()));
+        // every annotation gets a public identifier (the union of all identifiers serves as a primary constraint that admits every annotation)
+        let script: Vec<String> = script.into_iter().enumerate().map(|(k, l)| if l.starts_with("st annot ~ ") { l.replacen("st annot ~ ", &format!("st annot z{} ", k), 1) } else { l }).collect();
         check_store(&mut rep, &script, &mut rng);
         if i == 0 { rep.sample(json!({"script": script})); }
     }
